@@ -526,6 +526,11 @@ func (s *Server) GetDocument(uri protocol.DocumentURI) (string, bool) {
 }
 
 func (s *Server) Format(ctx context.Context, params *protocol.DocumentFormattingParams) ([]protocol.TextEdit, error) {
+	// a feature switched off in the configuration answers nothing, also when it
+	// was switched off after the capabilities were announced
+	if !s.getSettings().Features.Formatting {
+		return nil, nil
+	}
 	doc, ok := s.GetDocument(params.TextDocument.URI)
 	if !ok {
 		return nil, nil
